@@ -242,9 +242,48 @@ def continue_serving(m, sim, before, res, failures, label, then, max_rows=12500)
                 failures.append((f'{label}:{then}:reader-retries-forever', dict(error=repr(e))))
             res.count('continuations_index,tool,index')
             return
-        recipes = CHAINS[label.split('/')[0]][0] if False else None
         ext = indexrun.chain_for(list(sim_recipes(sim)) + more_for(sim))
         final = ext.blocks
+        if then == 'index+crash':
+            # the server indexes two more blocks and DIES after any durable effect of that
+            # (between the history commit and the UTXO commit too); restart, catch up: the
+            # histories are exact (C04's guarantee, on a database the tool has worked on)
+            snap = m.snapshot()
+            m.log.clear()
+            w.daemon.set_chain(final)
+            try:
+                w.poll()
+            except (world.SyncFailed, world.Stalled) as e:
+                failures.append((f'{label}:{then}:died', dict(error=repr(e))))
+                return
+            log = list(m.log)
+            ref = observe.ref_at(final, len(final) - 1, ACT)
+            for k in range(len(log) + 1):
+                m3 = world.Machine.from_snapshot(snap, log[:k])
+                w3 = world.World(m3, reorg_limit=LIMITS['server'], activation=ACT)
+                try:
+                    w3.daemon.set_chain(final)
+                    w3.start_sync()
+                    try:
+                        w3.run_until_caught_up()
+                        obs = observe.observe(w3, ref, what=('hist',))
+                        for field, detail in observe.compare(obs, ref, ('hist',)):
+                            failures.append((f'{label}:{then}:{field}', dict(
+                                detail if isinstance(detail, dict) else {}, crash_after_effect=k,
+                                effect=[str(x)[:40] for x in log[k - 1][:3]] if k else None)))
+                    except (world.SyncFailed, world.Stalled) as e:
+                        failures.append((f'{label}:{then}:died-after-crash', dict(error=repr(e), crash_after_effect=k)))
+                    except (world.ReaderBlocked, observe.ReadFailed, RuntimeError) as e:
+                        failures.append((f'{label}:{then}:reader-retries-forever',
+                                         dict(error=repr(e), crash_after_effect=k)))
+                finally:
+                    w3.close(destroy=False)
+                    m3.destroy()
+                res.count('crash_points_after_compaction')
+                if failures:
+                    return
+            res.count('continuations_' + then)
+            return
         w.daemon.set_chain(final)
         try:
             w.poll()
@@ -398,7 +437,8 @@ def run_case_(case, res):
                                   dict(field=field, killed_after_effect=k, continuation=cont,
                                        effect=[str(x)[:40] for x in log[k - 1][:3]] if k else None,
                                        **{a: b for a, b in detail.items()
-                                          if a in ('hashX', 'got', 'want', 'error', 'script')}))
+                                          if a in ('hashX', 'got', 'want', 'error', 'script',
+                                                   'crash_after_effect')}))
         res.distinct('modes', mode)
         return
     try:
@@ -507,6 +547,9 @@ def cases_for(tier):
                 if limit != 1 or rows > 1:
                     cases.append(dict(chain=chain_name, rows=rows, limit=limit, mode='kill-at-effect',
                                       then='index'))
+                    if limit != 1 and (not q or chain_name in ('mix', 'twins')):
+                        cases.append(dict(chain=chain_name, rows=rows, limit=limit,
+                                          mode='kill-at-effect', then='index+crash'))
                     cases.append(dict(chain=chain_name, rows=rows, limit=limit, mode='fault-in-batch'))
     return cases
 
@@ -536,6 +579,7 @@ def run(tier, seed, started):
         'continuations_outside_carve_out_skipped': c.get('continuations_outside_carve_out_skipped', 0),
         'die_before_copy_outside_carve_out_skipped': c.get('die_before_copy_outside_carve_out_skipped', 0),
         'kill_points_x_continuations': c.get('kill_points_x_continuations', 0),
+        'crash_points_of_later_indexing_after_a_killed_compaction': c.get('crash_points_after_compaction', 0),
         'max_effects_in_one_compaction': c.get('max:effects_in_one_compaction'),
         'exhaustive': True,
     }
